@@ -23,10 +23,10 @@ from . import common
 ID = "C02"
 LEVEL = "model_checking"
 MOD = "checks.c02"
-PRO = common.PROLOGUE
+PRO = common.PROLOGUE + "from Reduino.Actuators import Servo, DCMotor\n"
 
 HELPERS = ["def inc(p):", "    return p + 1", "def half(p):", "    return p / 2", "def tag(p):", '    return "t" + str(p)', "def idf(p):", "    return p"]
-HEAD = ['a = analog_read("A0")', "li = [3, 4]", "lf = [1.5, 2.25]"]
+HEAD = ['a = analog_read("A0")', "li = [3, 4]", "lf = [1.5, 2.25]", "mot = DCMotor(4, 7, 11)", "mot.set_speed(0.25)", "srv = Servo(10)", "srv.write(45.5)"]
 
 # name -> (expression, type class)
 SOURCES: Dict[str, Tuple[str, str]] = {
@@ -36,6 +36,9 @@ SOURCES: Dict[str, Tuple[str, str]] = {
     "binop_mixed": ("a + 0.25", "float"), "div": ("a / 4", "float"), "call_int": ("inc(a)", "int"), "call_float": ("half(a)", "float"), "call_str": ("tag(a)", "str"),
     "list_int": ("li[1]", "int"), "list_float": ("lf[1]", "float"), "neg_float": ("-2.5", "float"), "cast_float": ("float(a)", "float"), "cast_int": ("int(2.75)", "int"),
     "fstring": ('f"v{a}"', "str"), "not_expr": ("not (a > 2)", "bool"),
+    # device getters
+    "get_speed": ("mot.get_speed()", "float"), "get_applied": ("mot.get_applied_speed() * 2", "float"), "get_mode": ("mot.get_mode()", "str"), "is_inverted": ("mot.is_inverted()", "bool"),
+    "servo_read": ("srv.read()", "float"), "servo_read_us": ("srv.read_us() / 2", "float"),
 }
 
 
@@ -303,6 +306,59 @@ def gen_names(tier: str) -> Iterator[dict]:
             yield {"id": f"N:{oname}:{sname}:in_helper", "space": "N", "src": src, "runs": [{"passes": 0, "ar": {"A0": [a]}} for a in (3, 6)]}
 
 
+# ---- T: helper topology: caller above / below the callee x which call types exist x how the result is used
+T_CALLEE = {
+    "scale": ["def scaled(x):", "    return x * 3"],
+    "scale_local": ["def scaled(x):", "    y = x * 3", "    return y"],
+    "scale_div": ["def scaled(x):", "    return x / 2"],
+}
+T_CALLER = {
+    "direct": ["def report(x):", "    mon.write(scaled(x))"],
+    "local": ["def report(x):", "    r = scaled(x)", "    mon.write(r)", "    return r"],
+    "twice": ["def report(x):", "    return scaled(scaled(x))"],
+    "mixed": ["def report(x):", "    return scaled(x) + scaled(2)"],
+}
+T_RECURSIVE = {
+    "settle_local": ["def settle(n):", "    if n <= 0:", "        return 1.0", "    prev = settle(n - 1)", "    return prev / 2 + 0.75"],
+    "settle_direct": ["def settle(n):", "    if n <= 0:", "        return 1.0", "    return settle(n - 1) / 2 + 0.75"],
+    "sum_local": ["def total(n):", "    if n <= 0:", "        return 0", "    rest = total(n - 1)", "    return rest + n * 0.5"],
+    "fact_int": ["def fact(n):", "    if n <= 1:", "        return 1", "    sub = fact(n - 1)", "    return sub * n"],
+    "mutual": ["def even(n):", "    if n == 0:", "        return 1.5", "    return odd(n - 1)", "def odd(n):", "    if n == 0:", "        return 0.5", "    v = even(n - 1)", "    return v"],
+}
+T_GLOBAL = [
+    # (helper value, sketch value, derived use)
+    ("1.75", "0", "top"), ("1.75", "0", "loop"), ("0.5", "a", "top"), ("2", "0.5", "top"), ("a * 0.5", "1", "loop"), ("True", "3", "top"),
+]
+
+
+def gen_topology(tier: str) -> Iterator[dict]:
+    calls_sets = [("2", "2.5"), ("2.5", "2"), ("2.5",), ("2",), ("a", "a * 0.5"), ("a * 0.5", "a", "2.5")]
+    for (cn, callee), (rn, caller) in itertools.product(T_CALLEE.items(), T_CALLER.items()):
+        for order in ("caller-first", "callee-first"):
+            defs = (caller + callee) if order == "caller-first" else (callee + caller)
+            for ci, calls in enumerate(calls_sets):
+                lines = []
+                for k, arg in enumerate(calls):
+                    lines += [f"t{k} = report({arg})", f"mon.write(t{k})"] if rn != "direct" else [f"report({arg})"]
+                for placement in ("setup", "loop"):
+                    src = common.script(HEAD + lines, None, prologue=PRO, defs=defs) if placement == "setup" else common.script(HEAD, lines, prologue=PRO, defs=defs)
+                    yield {"id": f"T:{cn}:{rn}:{order}:{ci}:{placement}", "space": "T", "src": src, "runs": [{"passes": 1 if placement == "loop" else 0, "ar": {"A0": [6]}}]}
+    for rname, body in T_RECURSIVE.items():
+        fname = body[0].split()[1].split("(")[0]
+        for args in (("0", "1", "2", "3"), ("3",), ("a - 4",)):
+            lines = []
+            for k, arg in enumerate(args):
+                lines += [f"u{k} = {fname}({arg})", f"mon.write(u{k})", f"mon.write(u{k} + 0.25)"]
+            yield {"id": f"T:rec:{rname}:{'|'.join(args)}", "space": "T", "src": common.script(HEAD + lines, None, prologue=PRO, defs=body), "runs": [{"passes": 0, "ar": {"A0": [6]}}]}
+    for gi, (hval, sval, where) in enumerate(T_GLOBAL):
+        defs = ["def push():", "    global level", f"    level = {hval}"]
+        use = ["push()", "peak = level", "mon.write(peak)", "mon.write(peak + 0.25)"]
+        for first in ("assign", "call"):
+            pre = [f"level = {sval}"] if first == "assign" else ["push()", f"level = {sval}"]
+            src = common.script(HEAD + pre + (use if where == "top" else ["mon.write(level)"]), use if where == "loop" else ["mon.write(level)"], prologue=PRO, defs=defs)
+            yield {"id": f"T:glob:{gi}:{first}", "space": "T", "src": src, "runs": [{"passes": 2, "ar": {"A0": [6]}}]}
+
+
 def judge(case, tr, dev_runs, host_runs):
     from rmc.pipeline import default_judge
 
@@ -327,6 +383,8 @@ def generate(tier: str, only=None) -> Iterator[dict]:
         yield from gen_helpers(tier)
     if not only or "N" in only:
         yield from gen_names(tier)
+    if not only or "T" in only:
+        yield from gen_topology(tier)
 
 
 def main(tier: str, seed: int, only=None) -> int:
